@@ -7,6 +7,7 @@ out = ['| change | property | breaks (summary) | caught by (quick tier) | first 
 def key(x): return (0 if x[0] == 'C' else int(x[1]), x)
 for k in sorted(r, key=key):
     m = json.load(open(f'{ROOT}/seeded/{k}/meta.json'))
+    if m.get('retired'): continue
     summ = m['summary'].replace('|', '/').replace('\n', ' ')
     summ = summ[:150] + ('…' if len(summ) > 150 else '')
     caught = [p for p, x in r[k].items() if x['exit'] == 1]
